@@ -7,6 +7,12 @@ import json
 import wireengine as we, wirelib, drivers
 
 
+def union_classes(t):
+    us = []
+    we._unions(t, us)
+    return [we.type_class(u) for u in us]
+
+
 def main():
     c = Check("C02", "model_checking")
     sc = scratch("verif-c02-")
@@ -61,6 +67,8 @@ def main():
         if not rr["ok"]:
             st = we.blame_step(p, rr["msg"])
             shape = we.type_class(st["t"]) if st else "?"
+            if lang == "cpp" and st is not None and any(x in we.cpp_variant_tag_clash(p) for x in union_classes(st["t"])):
+                shape += ":one-cpp-variant-two-tag-sets"
             c.violation("C02:%s:%s:%s" % (lang, legname, shape), rr["msg"],
                         {"package_model": open(os.path.join(p.root, "model", "model.yml")).read(), "run": r, "lang": lang,
                          "leg": legname, "stderr": rr.get("stderr"),
